@@ -196,12 +196,15 @@ type clRun struct {
 	inflight map[uint64]bool // op idx+1 of writes issued and not completed
 
 	// membership epochs: address -> epoch (incremented every time the address (re)appears in the list)
-	epoch     map[string]int
-	present   map[string]bool
-	lastList  []types.Replica
-	removedAt map[string]time.Duration // address -> time it was last seen leaving the list
-	errSince  map[string]time.Duration // address -> when it was first seen listed in mode ERR (C05)
-	woSince   map[string]int           // address -> index of first io op issued after it appeared as WO
+	epoch                map[string]int
+	present              map[string]bool
+	lastList             []types.Replica
+	removedAt            map[string]time.Duration // address -> time it was last seen leaving the list
+	abortedWO            map[string]bool          // address -> its last rebuild ended without a promotion (left the list while WO)
+	halfRebuiltElections []int                    // cold-start election numbers that picked such a replica (D25)
+	reverts              []*revertRec             // successful volume reverts (for elections of replicas that missed them)
+	errSince             map[string]time.Duration // address -> when it was first seen listed in mode ERR (C05)
+	woSince              map[string]int           // address -> index of first io op issued after it appeared as WO
 
 	frameMu      sync.Mutex
 	verifyReads  int
@@ -925,6 +928,14 @@ func (cr *clRun) onQuiescent() {
 	}
 	for a := range cr.present {
 		if !now[a] {
+			if cr.lastMode[a] == types.WO {
+				// an interrupted rebuild: files half copied in place, chain metadata not yet switched
+				if cr.abortedWO == nil {
+					cr.abortedWO = map[string]bool{}
+				}
+				cr.abortedWO[a] = true
+				cr.res.stat("rebuild_interrupted", 1)
+			}
 			cr.removedAt[a] = cr.w.Now()
 			cr.mutations++
 			cr.res.stat("membership_remove", 1)
@@ -936,6 +947,7 @@ func (cr *clRun) onQuiescent() {
 	for _, r := range list {
 		if r.Mode == types.RW && cr.lastMode[r.Address] == types.WO {
 			promoted = r.Address
+			delete(cr.abortedWO, r.Address) // a completed rebuild replaces whatever the interrupted one left
 			cr.res.stat("promotions", 1)
 		}
 	}
@@ -1246,6 +1258,10 @@ func (cr *clRun) judgeIO(o *ioOp) {
 					clause += "/write-majority-included-rebuilding-replica"
 					why += cr.d20Note(w)
 				}
+				if w := cr.electedHalfRebuilt(bad); w != nil && !strings.Contains(clause, "/") {
+					clause += "/elected-after-interrupted-rebuild"
+					why += cr.d25Note(w)
+				}
 				cr.viol("C04", clause, "read %d off=%d len=%d: %s", o.idx, o.off, o.n, why)
 				return
 			}
@@ -1356,6 +1372,41 @@ func (cr *clRun) unackedWriteOnlyOnWO(s int64) *ioOp {
 		}
 	}
 	return nil
+}
+
+// electedHalfRebuilt recognises known finding D25: the acknowledged value of
+// sector s predates a cold-start election that picked a replica whose last
+// rebuild had been interrupted. A rebuild copies the source's snapshot files IN
+// PLACE over the rebuilding replica's same-named files and switches the chain
+// metadata last; interrupted in between, the replica's own copy of recent
+// writes (in the snapshot of its old head, just overwritten) is gone while the
+// source's intermediate snapshots are not linked in yet. On restart the replica
+// "resets" the failed rebuild and registers as healthy with its full revision
+// counter, so it can win the election, and everybody else is rebuilt from it.
+func (cr *clRun) electedHalfRebuilt(s int64) *ioOp {
+	if s < 0 || s >= int64(len(cr.m.val)) || len(cr.halfRebuiltElections) == 0 {
+		return nil
+	}
+	idx := int(cr.m.val[s]>>32) - 1
+	last := cr.halfRebuiltElections[len(cr.halfRebuiltElections)-1]
+	for _, o := range cr.ios {
+		if o.idx == idx && o.acked && o.coldStarts0 < last {
+			return o
+		}
+	}
+	return nil
+}
+
+func (cr *clRun) d25Note(w *ioOp) string {
+	return fmt.Sprintf(" [write %d was acknowledged before cold-start election #%v picked a replica whose last rebuild had been interrupted]", w.idx, cr.halfRebuiltElections)
+}
+
+// revertRec: a successful volume revert, who took part, and the register before/after.
+type revertRec struct {
+	holders   map[string]bool
+	pre, post []uint64
+	preWild   []bool
+	lost      bool
 }
 
 func (cr *clRun) d20Note(w *ioOp) string {
@@ -1602,6 +1653,9 @@ func (cr *clRun) settle() {
 				} else if w := cr.woMajorityLoss(bad); w != nil {
 					clause += "/write-majority-included-rebuilding-replica"
 					why += cr.d20Note(w)
+				} else if w := cr.electedHalfRebuilt(bad); w != nil {
+					clause += "/elected-after-interrupted-rebuild"
+					why += cr.d25Note(w)
 				}
 				cr.viol("C02", clause, "replica %s is listed RW but its image disagrees with the acknowledged writes: %s", rn.name, why)
 				return
